@@ -273,6 +273,14 @@ def run(ctx):
     ne = nonempty_edges()
     all_e = bool_edges(de, T, lambda c: c[0] == "call" and c[1] == "std::iter::Iterator::all", True)
     empty_e = bool_edges(de, T, lambda c: c[0] == "call" and c[1] in ("core::str::<impl str>::is_empty",) and M.noref(c[2][0]) == s_param, True)
+    def unreachable_under(pred, value, blocks):
+        """none of `blocks` can be reached when the (call) term recognised by pred has the given value -- decided by evaluating the
+        function's own tests, so it does not matter whether the decision is one condition, a named bool, or an early return"""
+        E = M.Explore(de, assume_fn=lambda t: value if (t and pred(M.noref(t))) else None)
+        return not (set(blocks) & E.blocks)
+    is_empty_call = lambda c: c[0] == "call" and c[1] in ("core::str::<impl str>::is_empty",) and M.noref(c[2][0]) == s_param
+    is_len_call = lambda c: c[0] == "call" and c[1] == "core::str::<impl str>::len" and M.noref(c[2][0]) == s_param
+    is_all_call = lambda c: c[0] == "call" and c[1] == "std::iter::Iterator::all"
     for bb, si in list(bare):
         pay = T.operand(de.blocks[bb]["stmts"][si]["r"]["ops"][0])
         lit = M.noref(pay)
@@ -282,9 +290,13 @@ def run(ctx):
                    "a constant rendering %r may be returned only for the empty word, as '' or \"\"" % lit[1])
             bare.remove((bb, si))
             continue
-        ctx.ob("R19.2", "bare-only-if-nonempty", dominated_by_edges(de, bb, ne), de.loc(bb, si),
+        # (one way of asking suffices: the word is empty iff is_empty() iff len() == 0)
+        has = lambda nm: bool(de.calls_to(lambda f: M.callee_str(f) == nm))
+        ne_ok = dominated_by_edges(de, bb, ne) or (has("core::str::<impl str>::is_empty") and unreachable_under(is_empty_call, 1, [bb])) \
+            or (has("core::str::<impl str>::len") and unreachable_under(is_len_call, 0, [bb]))
+        ctx.ob("R19.2", "bare-only-if-nonempty", ne_ok, de.loc(bb, si),
                "the unquoted form must be used only for a non-empty word: all() over no characters is vacuously true, so \"\" is rendered as nothing and the argument disappears when the line is read by sh")
-        ctx.ob("R19.2", "bare-only-if-all-nice", dominated_by_edges(de, bb, all_e) and M.noref(pay) == s_param, de.loc(bb, si), "the unquoted form is the string itself, under all(nice_char)")
+        ctx.ob("R19.2", "bare-only-if-all-nice", (dominated_by_edges(de, bb, all_e) or (len(al) == 1 and unreachable_under(is_all_call, 0, [bb]))) and M.noref(pay) == s_param, de.loc(bb, si), "the unquoted form is the string itself, under all(nice_char)")
 
     # ---- R19.5 shell reserved words are never emitted bare ---------------------------------------------------------
     # a word made of safe characters only can still be syntax: in command position sh parses `if`, `for`, `done` ... as
@@ -321,14 +333,15 @@ def run(ctx):
     bare_blocks = {bb for bb, si in bare}
     forced = set()
     for bb_, w_, tgt in eq_words(de, T, s_param):
-        if not (de.reachable(tgt) & bare_blocks):
+        if not (de.reachable(tgt) & bare_blocks) or unreachable_under(lambda c, bb_=bb_: c[0] == "call" and len(c) > 3 and c[3] == bb_, 1, bare_blocks):
             forced.add(w_)
     for bb_, t_ in de.calls():
         nm_ = M.callee_str(t_["f"])
         g_ = prog.fns.get(nm_)
         if g_ is not None and g_.j.get("output") == "bool" and len(t_["args"]) == 1 and M.noref(M.strip(T.operand(t_["args"][0]))) == s_param:
             t_e = bool_edges(de, T, lambda c, bb_=bb_: c[0] == "call" and len(c) > 3 and c[3] == bb_, True)
-            if t_e and all(not (de.reachable(e_[1]) & bare_blocks) for e_ in t_e):
+            if (t_e and all(not (de.reachable(e_[1]) & bare_blocks) for e_ in t_e)) or \
+                    unreachable_under(lambda c, bb_=bb_: c[0] == "call" and len(c) > 3 and c[3] == bb_, 1, bare_blocks):
                 forced |= words_accepted_by(g_)
     missing2 = [w for w in MAYBE_RESERVED if w not in forced]
     missing = [w for w in RESERVED if w not in forced]
@@ -394,7 +407,25 @@ def run(ctx):
         ok = a[1][0] == "const" and a[1][1] == " | "
         lp = M.sccs(pdg)
         okl = len(lp) == 1
-        if okl:
+        if not lp:
+            # adaptor form: self.cmds.iter().map(to_cmdline_lossy).collect::<Vec<_>>() -- map and collect keep the order
+            v = M.noref(M.strip(a[0], also=("<std::vec::Vec<T> as std::ops::Deref>::deref", "<std::vec::Vec<T, A> as std::ops::Deref>::deref", "std::vec::Vec::<T, A>::as_slice")))
+            okl = v[0] == "call" and v[1] == "std::iter::Iterator::collect" and len(v[2]) == 1
+            if okl:
+                m_ = M.noref(v[2][0])
+                okl = m_[0] == "call" and m_[1] == "std::iter::Iterator::map" and len(m_[2]) == 2
+                if okl:
+                    src_, f__ = M.noref(m_[2][0]), M.noref(m_[2][1])
+                    okl = src_[0] == "call" and (src_[1].endswith("into_iter") or src_[1].endswith("::iter")) and M.noref(M.strip(src_[2][0], also=("<std::vec::Vec<T, A> as std::ops::Deref>::deref",))) == ("field", ("param", 1, pdg.local_name(1)), "cmds")
+                    if f__ == ("fnitem", tc.path):
+                        pass
+                    elif f__[0] == "agg" and f__[1][0] == "closure" and f__[1][1] in prog.fns:
+                        cf_ = prog.fns[f__[1][1]]
+                        cc_ = [(M.callee_str(t_["f"]), M.noref(M.Terms(cf_).operand(t_["args"][0]))) for _, t_ in cf_.calls()]
+                        okl = okl and cc_ == [(tc.path, ("param", 2, cf_.local_name(2)))]
+                    else:
+                        okl = False
+        if okl and lp:
             nx = [(bb, t) for bb, t in pdg.calls(lp[0]) if M.callee_str(t["f"]).endswith("as std::iter::Iterator>::next")]
             pu = [(bb, t) for bb, t in pdg.calls(lp[0]) if M.callee_str(t["f"]) == "std::vec::Vec::<T, A>::push"]
             okl = len(nx) == 1 and len(pu) == 1
